@@ -60,6 +60,14 @@ func (s scen) argsSource() string {
 		// the spawn method itself used as a callback: each job reaches its own spawned call although the
 		// builtin that drives the callback reuses its argument buffer
 		return "out := chan(3)\nfunc worker(j) { out <- j\n return j }\n[1, 2, 3].each(worker.spawn)\na := <-out\nb := <-out\nc := <-out\ngot(\"n\", sorted([a, b, c]))\n\"done\"\n"
+	case "wide-helper":
+		// a helper with more than 8 local variables starts a thread over a closure of its locals and
+		// returns; the next call of the helper must not disturb the variables the running closure holds
+		pad := ""
+		for i := 2; i <= 10; i++ {
+			pad += fmt.Sprintf("  a%d := %d\n", i, i)
+		}
+		return "out := chan(3)\nfunc start(id) {\n  a1 := id * 10\n" + pad + "  return spawn(func() { out <- a1\n return a1 + a2 })\n}\nt1 := start(1)\nt2 := start(2)\nt3 := start(3)\ngot(\"n\", sorted([<-out, <-out, <-out]))\ngot(\"w\", [t1.wait(), t2.wait(), t3.wait()])\n\"done\"\n"
 	case "map-spawn":
 		return "func worker(j) { return j * 10 }\nts := [1, 2, 3].map(worker.spawn)\ngot(\"n\", ts.map(func(t) { return t.wait() }))\n\"done\"\n"
 	case "error":
@@ -180,6 +188,7 @@ func (s scen) judge(x *dsched.Exec, st *state) (violation, key string) {
 			"error":           `"w":"caught"`,
 			"each-spawn":      `"n":[1, 2, 3]`,
 			"map-spawn":       `"n":[10, 20, 30]`,
+			"wide-helper":     `"n":[10, 20, 30] "w":[12, 22, 32]`,
 		}[s.Args]
 		if s.Args == "error" && s.Spawn == "go" {
 			// the go statement has no handle: the error of the spawned call is not observable through wait()
@@ -282,7 +291,7 @@ func scenarios(thorough bool) []scen {
 			out = append(out, scen{Spawn: sp, Args: a})
 		}
 	}
-	out = append(out, scen{Spawn: "fnspawn", Args: "each-spawn"}, scen{Spawn: "fnspawn", Args: "map-spawn"})
+	out = append(out, scen{Spawn: "fnspawn", Args: "each-spawn"}, scen{Spawn: "fnspawn", Args: "map-spawn"}, scen{Spawn: "spawn", Args: "wide-helper"})
 	if !thorough {
 		for _, sr := range [][2]int{{1, 1}, {1, 2}, {2, 1}} {
 			for _, b := range []int{0, 1} {
